@@ -12,6 +12,7 @@
 
 #include <algorithm>
 #include <atomic>
+#include <type_traits>
 #include <climits>
 
 namespace {
@@ -20,7 +21,7 @@ using sim::Workload;
 using sim::Result;
 using sim::Rng;
 
-enum { C_ENTRY = 0, C_MWMA, C_MWMSA, C_THREADS, C_OVERSAMPLE, C_SIZEMODE, C_SIZEVAL, C_FORCE, C_MINK, C_MINN };
+enum { C_ENTRY = 0, C_MWMA, C_MWMSA, C_THREADS, C_OVERSAMPLE, C_SIZEMODE, C_SIZEVAL, C_FORCE, C_MINK, C_MINN, C_ELEM };
 enum { EV_ASSIGN = 1 };
 
 struct E;
@@ -55,16 +56,28 @@ struct E {
         g_e_live.fetch_sub(1, std::memory_order_relaxed);
     }
 };
-struct ByKey { bool operator()(const E& a, const E& b) const { return a.key < b.key; } };
-// E has an operator< on purpose, and it is the OPPOSITE of the comparator the merge is called with:
+// the second element type: trivially copyable (fast paths that a library may take for such types --
+// memcpy / memmove, skipped construction -- are only reachable with it); no hooks, hence no single-writer
+// and no lifetime oracle in those runs
+struct P {
+    int key, seq, pos;
+    P() : key(-1), seq(-1), pos(-1) {}
+    P(int k, int s, int p) : key(k), seq(s), pos(p) {}
+};
+static_assert(std::is_trivially_copyable<P>::value, "P must be trivially copyable");
+struct ByKey { template <class T> bool operator()(const T& a, const T& b) const { return a.key < b.key; } };
+// both have an operator< on purpose, and it is the OPPOSITE of the comparator the merge is called with:
 // code that falls back to operator< instead of the user's comparator shows at once
 inline bool operator<(const E& a, const E& b) { return a.key > b.key; }
+inline bool operator<(const P& a, const P& b) { return a.key > b.key; }
+inline void set_out(E* base, size_t cap) { g_out_base = base; g_out_cap = cap; }
+inline void set_out(P*, size_t) {}
 
 void generate(Rng& r, Workload& w, int tier) {
     int64_t threads = r.chance(1, 12) ? 8 : r.range(0, 7);   // 0..7 -> 1..8 threads, 8 -> 32
     int64_t sizemode = r.below(10) < 5 ? 0 : (r.chance(1, 5) ? 1 : 2);
     w.cfg = {int64_t(r.below(6)), int64_t(r.below(4)), int64_t(r.below(2)), threads, r.range(0, 3), sizemode,
-             int64_t(r.below(1000)), r.chance(4, 5) ? 1 : 0, r.range(0, 4), r.range(0, 20)};
+             int64_t(r.below(1000)), r.chance(4, 5) ? 1 : 0, r.range(0, 4), r.range(0, 20), r.chance(1, 3) ? 1 : 0};
     // mostly a handful of sequences; one run in five has many (17..48) short ones:
     // sample sorting inside the splitters behaves differently beyond 16 sequences
     const bool many = r.chance(1, 5);
@@ -84,7 +97,8 @@ void generate(Rng& r, Workload& w, int tier) {
     }
 }
 
-void execute(const Workload& w, Result& res) {
+template <class E, bool Hooks>
+void run(const Workload& w, Result& res) {
     const int entry = int(sim::modn(sim::cfg_at(w, C_ENTRY), 6));
     const auto mwma = tlx::MultiwayMergeAlgorithm(sim::modn(sim::cfg_at(w, C_MWMA), 4));
     const bool sampling = sim::modn(sim::cfg_at(w, C_MWMSA), 2) == 1;
@@ -118,13 +132,13 @@ void execute(const Workload& w, Result& res) {
     tlx::parallel_multiway_merge_minimal_k = size_t(sim::modn(sim::cfg_at(w, C_MINK), 5));
     tlx::parallel_multiway_merge_minimal_n = size_t(sim::modn(sim::cfg_at(w, C_MINN), 21));
 
-    using It = std::vector<E>::iterator;
+    using It = typename std::vector<E>::iterator;
     std::vector<std::pair<It, It> > pairs;
     for (auto& v : seqs) pairs.emplace_back(v.begin(), v.end() - (sentinels ? 1 : 0));
     const size_t guard = 4;
     std::vector<E> out(size + guard);            // default elements: key -1 = untouched
     out.shrink_to_fit();
-    g_out_base = out.data(); g_out_cap = out.size();
+    set_out(out.data(), out.size());
 
     // reference: stable order by (key, sequence, position)
     std::vector<E> ref;
@@ -143,9 +157,9 @@ void execute(const Workload& w, Result& res) {
     case 4: ret = tlx::parallel_multiway_merge_sentinels(pairs.begin(), pairs.end(), out.begin(), dsize, ByKey(), mwma, mwmsa, threads); break;
     default: ret = tlx::stable_parallel_multiway_merge_sentinels(pairs.begin(), pairs.end(), out.begin(), dsize, ByKey(), mwma, mwmsa, threads); break;
     }
-    g_out_base = nullptr; g_out_cap = 0;
+    set_out(static_cast<E*>(nullptr), 0);
     // element lifetimes: the merge may create temporaries (samples, loser tree entries) but works on objects only
-    {
+    if (Hooks) {
         int64_t mine = int64_t(out.size()) + int64_t(ref.size());   // the harness's own: output, reference, inputs
         for (auto& v : seqs) mine += int64_t(v.size());
         if (g_e_bad_assign.load()) res.fail("pmerge_lifetime", "an element was assigned to storage that holds no object (" + std::to_string(g_e_bad_assign.load()) + " times)");
@@ -199,6 +213,17 @@ void execute(const Workload& w, Result& res) {
             if (a != b) res.fail("pmerge_cursors", cfgs + ": inputs were not advanced past exactly the elements they contributed");
         }
     }
+    res.probe(Hooks ? "element_with_hooks" : "element_trivially_copyable");
+    if (!Hooks) {
+        if (size < total) res.probe("size_less_than_total");
+        if (size == 0) res.probe("size_zero");
+        if (threads > total) res.probe("more_threads_than_elements");
+        if (seqs.size() > 16) res.probe("more_than_16_sequences");
+        res.probe(sampling ? "sampling" : "exact");
+        if (stable) res.probe("stable");
+        if (sentinels) res.probe("sentinels");
+        return;
+    }
     // single writer per output slot
     size_t nev; const sim::Event* ev = sim::rt_events(&nev);
     std::vector<int> writer(out.size(), -1); std::vector<int> writes(out.size(), 0);
@@ -222,6 +247,10 @@ void execute(const Workload& w, Result& res) {
     res.probe(sampling ? "sampling" : "exact");
     if (stable) res.probe("stable");
     if (sentinels) res.probe("sentinels");
+}
+
+void execute(const Workload& w, Result& res) {
+    if (sim::modn(sim::cfg_at(w, C_ELEM), 2) == 1) run<P, false>(w, res); else run<E, true>(w, res);
 }
 
 const sim::HarnessDef def = {"C07", true, 60, generate, execute, nullptr};
